@@ -193,6 +193,8 @@ pub struct Peripheral<'a> {
     ext_diag: crate::dp::ExtendedDiagnostics<'a>,
     /// Flag to indicate necessity of polling diagnostics ASAP
     diag_needed: bool,
+    /// Whether the request currently awaiting its reply (or retry) is a diagnostics request
+    diag_requested: bool,
 
     #[cfg(feature = "debug-measure-roundtrip")]
     tx_time: Option<crate::time::Instant>,
@@ -212,6 +214,7 @@ impl Default for Peripheral<'_> {
             diag: Default::default(),
             ext_diag: Default::default(),
             diag_needed: Default::default(),
+            diag_requested: Default::default(),
             #[cfg(feature = "debug-measure-roundtrip")]
             tx_time: Default::default(),
             options: Default::default(),
@@ -436,7 +439,12 @@ impl<'a> Peripheral<'a> {
                 Ok(self.send_diagnostics_request(fdl, tx))
             }
             PeripheralState::DataExchange | PeripheralState::PreDataExchange => {
-                if self.diag_needed {
+                // Only choose between diagnostics and data exchange for a new message cycle.  A
+                // retry must repeat the request it belongs to.
+                if self.retry_count == 0 {
+                    self.diag_requested = self.diag_needed;
+                }
+                if self.diag_requested {
                     Ok(self.send_diagnostics_request(fdl, tx))
                 } else {
                     #[cfg(feature = "debug-measure-roundtrip")]
@@ -556,7 +564,7 @@ impl<'a> Peripheral<'a> {
                 event
             }
             PeripheralState::DataExchange | PeripheralState::PreDataExchange => {
-                if self.diag_needed {
+                if self.diag_requested {
                     if self.handle_diagnostics_response(fdl, &telegram).is_some() {
                         self.retry_count = 0;
                         self.diag_needed = false;
